@@ -232,6 +232,33 @@ impl SigV4Authenticator {
 //@ end
 }
 
+impl SigV4AuthenticatorBuilder {
+//@ fn auth.rs impl SigV4AuthenticatorBuilder :: get_credential
+//@ params
+//@ props C08
+//@ ret r
+//@ replace 1 `self.credential.as_deref()` => `option_string_as_deref(&self.credential)`
+//@ spec
+        ensures (r is Some) == (self.credential is Some), r is Some ==> r->Some_0@ == self.credential->Some_0@
+//@ end
+//@ fn auth.rs impl SigV4AuthenticatorBuilder :: get_signature
+//@ params
+//@ props C08
+//@ ret r
+//@ replace 1 `self.signature.as_deref()` => `option_string_as_deref(&self.signature)`
+//@ spec
+        ensures (r is Some) == (self.signature is Some), r is Some ==> r->Some_0@ == self.signature->Some_0@
+//@ end
+//@ fn auth.rs impl SigV4AuthenticatorBuilder :: get_session_token
+//@ params
+//@ props C08
+//@ ret r
+//@ replace 1 `self.session_token.as_ref()?.as_deref()` => `option_string_as_deref(self.session_token.as_ref()?)`
+//@ spec
+        ensures (r is Some) == (self.session_token is Some && self.session_token->Some_0 is Some),
+            r is Some ==> r->Some_0@ == self.session_token->Some_0->Some_0@
+//@ end
+}
 impl vstd::std_specs::convert::FromSpecImpl<GetSigningKeyResponse> for SigV4AuthenticatorResponse {
     open spec fn obeys_from_spec() -> bool { true }
     closed spec fn from_spec(v: GetSigningKeyResponse) -> Self { SigV4AuthenticatorResponse { principal: v.principal, session_data: v.session_data } }
@@ -268,4 +295,14 @@ impl From<GetSigningKeyResponse> for SigV4AuthenticatorResponse {
 //@ params duration
 //@ props C08
 //@ end
+pub mod auth_debug_m {
+    use super::*;
+    use std::fmt::Debug;
+impl Debug for SigV4Authenticator {
+//@ fn auth.rs impl Debug for SigV4Authenticator :: fmt
+//@ params f
+//@ props C08 C17
+//@ end
+}
+}
 } // mod auth_m
